@@ -71,7 +71,8 @@ type Case struct {
 	Workers   []WorkerCfg `json:"workers"`
 	Decs      []Dec       `json:"decs"`
 	Faults    []Fault     `json:"faults,omitempty"`
-	Shutdown  bool        `json:"shutdown,omitempty"` // shutdown moves are enabled (C04)
+	Shutdown  bool        `json:"shutdown,omitempty"` // shutdown moves are enabled
+	HonourCtx bool        `json:"honour_ctx,omitempty"` // the storage refuses calls whose context is done (as a networked backend does)
 }
 
 // Info is what the classifiers need.
@@ -517,6 +518,7 @@ func (e *eng) run() *vstat.Violation {
 	resetTimers()
 	e.inner = inmem.New()
 	e.g = gated.New(e.inner)
+	e.g.HonourCtx = c.HonourCtx
 	e.faultAt = map[int]int{}
 	for _, f := range c.Faults {
 		if f.Kind == 1 || f.Kind == 2 {
